@@ -23,14 +23,12 @@ func (*urlencodedBodyProcessor) ProcessRequest(reader io.Reader, v plugintypes.T
 	}
 
 	b := buf.String()
-	values := urlutil.ParseQuery(b, '&')
 	argsCol := v.ArgsPost()
-	for k, vs := range values {
-		// Add, not Set: names differing only in letter case share a bucket of the (case
-		// insensitive) collection and Set would let the last one replace the others.
-		for _, v := range vs {
-			argsCol.Add(k, v)
-		}
+	// Add, not Set: names differing only in letter case share a bucket of the (case
+	// insensitive) collection and Set would let the last one replace the others.
+	// In the order of the body, not in the random iteration order of a map.
+	for _, kv := range urlutil.ParseQueryPairs(b, '&') {
+		argsCol.Add(kv[0], kv[1])
 	}
 	v.RequestBody().(*collections.Single).Set(b)
 	v.RequestBodyLength().(*collections.Single).Set(strconv.Itoa(len(b)))
